@@ -174,8 +174,8 @@ def check_add(rec: core.Recorder, *, op: str, a: dict, b: dict, r: dict, sign: i
                 rec.fail(prop="C14", monitor="C14.add.stats", op=op, symptom="statistics after subtraction are numbers instead of invalid (NaN)",
                          diff=["statistics"], detail={**detail, "result": sr})
         elif stats_all_nan(sa) or stats_all_nan(sb):
-            # the sums must stay invalid (mean / variance NaN); min / max of "unknown and known" are not judged
-            if not all(sr[i] == "nan" for i in (0, 1, 4)):
+            # invalid + anything is invalid in every field (min / max included: repaired as D84, judged since)
+            if not all(sr[i] == "nan" for i in (0, 1, 2, 3, 4)):
                 rec.fail(prop="C14", monitor="C14.add.stats", op=op, symptom="invalid statistics + anything must stay invalid", diff=["statistics"],
                          detail={**detail, "a": sa, "b": sb, "result": sr})
         else:
